@@ -46,26 +46,36 @@ fn parse_base(data: &[u8]) -> IResult<&[u8], LongRangeAisBroadcastMessage> {
         let (data, longitude) = map(
             |data| signed_i32(data, 18),
             |lon| {
-                parse_longitude(lon).map(|val| {
-                    if message_type == 27 {
-                        val * 1000.0
-                    } else {
-                        val
-                    }
-                })
+                if lon == 108_600 {
+                    // 181 degrees at 1/10 minute resolution: not available
+                    None
+                } else {
+                    parse_longitude(lon).map(|val| {
+                        if message_type == 27 {
+                            val * 1000.0
+                        } else {
+                            val
+                        }
+                    })
+                }
             },
         )(data)?;
 
         let (data, latitude) = map(
             |data| signed_i32(data, 17),
             |lat| {
-                parse_latitude(lat).map(|val| {
-                    if message_type == 27 {
-                        val * 1000.0
-                    } else {
-                        val
-                    }
-                })
+                if lat == 54_600 {
+                    // 91 degrees at 1/10 minute resolution: not available
+                    None
+                } else {
+                    parse_latitude(lat).map(|val| {
+                        if message_type == 27 {
+                            val * 1000.0
+                        } else {
+                            val
+                        }
+                    })
+                }
             },
         )(data)?;
 
